@@ -15,6 +15,18 @@ INF = float('inf')
 EXC = {n: getattr(__import__('builtins'), n) for n in
        ('KeyError', 'IndexError', 'ValueError', 'LookupError', 'RuntimeError', 'TypeError',
         'AssertionError', 'KeyboardInterrupt', 'SystemExit', 'ZeroDivisionError')}
+
+
+class Mismatch(AssertionError):
+    """a proper subclass of a privileged exception type"""
+
+
+class Abort(KeyboardInterrupt):
+    """a proper subclass of a privileged exception type"""
+
+
+EXC['Mismatch'] = Mismatch
+EXC['Abort'] = Abort
 CMP = {'<': operator.lt, '<=': operator.le, '==': operator.eq, '!=': operator.ne,
        '>=': operator.ge, '>': operator.gt}
 
@@ -112,6 +124,12 @@ class Interp:
             return r
         if k == 'SCOPE':
             return self.ctx.scopes[e[1]]
+        if k == 'C':
+            # a named condition object (program['conds'][name]), built when first used and shared by every later use
+            store = self.__dict__.setdefault('shared_conds', {})
+            if e[1] not in store:
+                store[e[1]] = self.cond(self.program['conds'][e[1]])
+            return store[e[1]]
         raise ValueError('unknown condition %r' % (e,))
 
     # -- activities ----------------------------------------------------------------------------
